@@ -415,6 +415,9 @@ class Respondent(httping.Parsent):
 
             line = next(lineParser)
             if line is None:
+                if self.closed:  # closed with start line incomplete
+                    raise httping.PrematureClosure("Connection closed unexpectedly"
+                                               " while parsing response start line")
                 (yield None)
                 continue
             lineParser.close()  # close generator
@@ -434,6 +437,9 @@ class Respondent(httping.Parsent):
                 if headers is not None:
                     leaderParser.close()
                     break
+                if self.closed:  # closed with header incomplete
+                    raise httping.PrematureClosure("Connection closed unexpectedly"
+                            " while parsing response header")
                 (yield None)
 
         self.code = self.status = status
@@ -457,6 +463,9 @@ class Respondent(httping.Parsent):
             if headers is not None:
                 leaderParser.close()
                 break
+            if self.closed:  # closed with header incomplete
+                raise httping.PrematureClosure("Connection closed unexpectedly"
+                                               " while parsing response header")
             (yield None)
         self.headers.update(headers)
 
@@ -545,6 +554,9 @@ class Respondent(httping.Parsent):
                     if result is not None:
                         chunkParser.close()
                         break
+                    if self.closed:  # closed with chunk incomplete
+                        raise httping.PrematureClosure("Connection closed "
+                                "unexpectedly while parsing response body chunk")
                     (yield None)
 
                 size, parms, trails, chunk = result
@@ -575,7 +587,7 @@ class Respondent(httping.Parsent):
 
         elif self.length != None:  # known content length
             while len(self.msg) < self.length:
-                if self.closed and not self.msg:  # connection closed prematurely
+                if self.closed:  # connection closed prematurely
                     raise httping.PrematureClosure("Connection closed unexpectedly"
                                                    " while parsing response body")
                 (yield None)
